@@ -193,6 +193,7 @@ class Flow:
         self._if_tests: dict = {}
         self._loop_stored: list = []
         self.consts = consts or {}
+        self.records = getattr(func, "_sa_records", None) or {}
         self.acc = self._find_acc(func)
         a = func.args
         allargs = a.posonlyargs + a.args + a.kwonlyargs
@@ -272,7 +273,27 @@ class Flow:
         return self.lookup(n.id)
 
     def e_Attribute(self, n):
-        return ("attr", self.ev(n.value), n.attr)
+        base = self.ev(n.value)
+        r = self._record_field(base, n.attr)
+        return r if r is not None else ("attr", base, n.attr)
+
+    def _record_field(self, base, field):
+        """`R(a, b).f` with R a record type of the module (typing.NamedTuple / collections.namedtuple, see core._Canon._records) is the
+        argument bound to field f -- also when the record reaches this point as the element of a list of such records"""
+        recs = self.records
+        if not recs or not isinstance(base, tuple) or base[0] not in ("call", "elem", "bv", "sub", "item", "phi"):
+            return None
+        b = base if base[0] == "call" else simp(base)
+        if b[0] == "call" and b[1][0] == "global" and b[1][1] in recs and field in recs[b[1][1]] and b[1][1] not in self.env:
+            fields = recs[b[1][1]]
+            args, kws = b[2], dict(b[3])
+            if any(isinstance(a, tuple) and a and a[0] == "star" for a in args) or "**" in kws or len(args) > len(fields):
+                return None
+            i = fields.index(field)
+            if i < len(args):
+                return args[i]
+            return kws.get(field)
+        return None
 
     def e_JoinedStr(self, n):
         parts = []
@@ -325,7 +346,60 @@ class Flow:
                 return (("fmt", v, None, -1),)
             if textual(l) or textual(r):
                 return flatten_fstr(("fstr", parts(l) + parts(r)))
+        if isinstance(n.op, ast.Mod) and l[0] == "const" and isinstance(l[1], str):
+            # "text %s text" % (a, b): printf-style formatting with a literal format is the f-string it is equal to
+            fs = self._percent_to_fstr(l[1], r)
+            if fs is not None:
+                return fs
         return ("binop", type(n.op).__name__, l, r)
+
+    @staticmethod
+    def _percent_to_fstr(text, arg):
+        """'a%sb%5.2f' % (x, y) as an f-string value; None for mapping keys, `*` widths or an argument that is not a display"""
+        import re as _re
+        pat = _re.compile(r"%(\((\w+)\))?([#0\- +]*)(\*|\d+)?(?:\.(\*|\d+))?[hlL]?([sdrifgGeExXoc%a])")
+        specs = [m for m in pat.finditer(text)]
+        if "%" in pat.sub("", text):
+            return None
+        n_args = sum(1 for m in specs if m.group(6) != "%")
+        if any(m.group(1) or m.group(4) == "*" or m.group(5) == "*" for m in specs):
+            return None
+        if arg[0] == "tuple":
+            args = list(arg[1])
+        elif n_args == 1 and arg[0] not in ("list", "dict", "unknown", "param", "global", "call", "meth", "attr", "sub", "elem", "bv", "phi", "acc", "carried"):
+            args = [arg]
+        elif n_args == 1 and arg[0] in ("attr", "elem", "bv", "sub", "call", "meth", "param", "global"):
+            # a single non-tuple operand: Python formats the value itself unless it IS a tuple at run time -- unknown here
+            return None
+        else:
+            return None
+        if len(args) != n_args or any(isinstance(a, tuple) and a and a[0] == "star" for a in args):
+            return None
+        parts, pos, k = [], 0, 0
+        for m in specs:
+            if m.start() > pos:
+                parts.append(("const", text[pos:m.start()]))
+            pos = m.end()
+            conv = m.group(6)
+            if conv == "%":
+                parts.append(("const", "%"))
+                continue
+            val = args[k]
+            k += 1
+            flags, width, prec = m.group(3) or "", m.group(4) or "", m.group(5)
+            if conv in ("s", "r", "a") and not flags and not width and prec is None:
+                if conv == "s" and val[0] == "const" and isinstance(val[1], str):
+                    parts.append(val)
+                elif conv == "s" and val[0] == "fstr":
+                    parts.extend(val[1])
+                else:
+                    parts.append(("fmt", val, None, -1 if conv == "s" else ord(conv)))
+            else:
+                spec = flags.replace("-", "<") + width + ("." + prec if prec is not None else "") + ("d" if conv == "i" else conv if conv not in ("s", "r", "a") else "")
+                parts.append(("fmt", val, spec or None, -1 if conv not in ("r", "a") else ord(conv)))
+        if pos < len(text):
+            parts.append(("const", text[pos:]))
+        return flatten_fstr(("fstr", tuple(parts)))
 
     def e_UnaryOp(self, n):
         return ("unop", type(n.op).__name__, self.ev(n.operand))
